@@ -305,6 +305,22 @@ func (g *tgen) failingOp(rt *rapid.T, db *model.DB) (model.Op, string) {
 		return op, class
 	case "unused-placeholder":
 		op := simpleUpdate(key)
+		if rapid.IntRange(0, 2).Draw(rt, "noExpressionAtAll") == 1 {
+			// a plain put / delete / get that carries placeholders although it has no expression
+			switch rapid.IntRange(0, 2).Draw(rt, "strayCarrier") {
+			case 0:
+				op = model.Op{Kind: "Put", Table: g.s.Table, Item: g.item(rt)}
+			case 1:
+				op = model.Op{Kind: "Delete", Table: g.s.Table, Key: key}
+			default:
+				op = model.Op{Kind: "Get", Table: g.s.Table, Key: key}
+			}
+			op.Names = map[string]string{"#unused": "a"}
+			if op.Kind != "Get" && rapid.Bool().Draw(rt, "strayValue") {
+				op.Names, op.Values = nil, map[string]model.AV{":unused": model.Str("z")}
+			}
+			return op, class
+		}
 		if rapid.Bool().Draw(rt, "unusedName") {
 			op.Names = map[string]string{"#unused": "a"}
 		} else {
